@@ -157,6 +157,15 @@ def _spelling_cases(rng, n):
         else:
             out.append({"kind": "substitute", "h": h, "table": [[h[-1][0], ["hist", [list(x) for x in h]]]],
                         "coalesce": rng.choice(["replace", "add"]), "md": md, "pl": pl, "via_pool": via_pool})
+    for _ in range(max(4, n // 3)):
+        m = rng.choice([5, 10, 10, 20, 11, 13])
+        k = rng.choice([1, 2, 2, 3]) if m <= 11 else rng.choice([1, 2])
+        hm = [[gens.q(j), 1] for j in range(1, m + 1)]
+        lim = ["frac", 1, m ** k]
+        if rng.random() < 0.5:
+            out.append({"kind": "explode", "h": hm, "sub": None, "lim": lim, "inf": None})
+        else:
+            out.append({"kind": "h_explode", "h": hm, "md": None, "pl": lim, "via_pool": rng.random() < 0.3})
     return [c for c in out if _c08()._safe(c)]
 
 
